@@ -89,10 +89,25 @@ def npz_case(ctx, case):
         names = envzoo.chooser_mix(B, seed) if name in envzoo_routing() else other_choosers(cfg, B, seed)
         from rl4co.envs.common.base import RL4COEnvBase
 
-        if getattr(type(env).load_data, "__func__", type(env).load_data) is getattr(RL4COEnvBase.load_data, "__func__", RL4COEnvBase.load_data):
+        base_loader = getattr(type(env).load_data, "__func__", type(env).load_data) is getattr(RL4COEnvBase.load_data, "__func__", RL4COEnvBase.load_data)
+        if base_loader:
             # envs with their own loader expect other formats (raw demands, instance text files): see datafile / schedfile cases
             td3 = env.load_data(f)
             same_td(ctx, sig, td, td3, "env.load_data of an npz written by save_tensordict_to_npz")
+        if base_loader or name == "mtvrp":
+            # the way the trainer consumes val / test files: env.dataset(<data size>, phase, filename) -> load_data(f, size)
+            from torch.utils.data import DataLoader
+
+            if name == "mtvrp":
+                if not same_td(ctx, sig, td, env.load_data(f), "MTVRPEnv.load_data of an npz of generated instances"):
+                    return
+            for arg in ([B], B, []):
+                ds = env.dataset(arg, phase="test", filename=f)
+                got = list(DataLoader(ds, batch_size=B, collate_fn=ds.collate_fn))[0]
+                ctx.evaluation()
+                ctx.count("c19_dataset_from_file_loads")
+                if not same_td(ctx, dict(sig, via="dataset"), td, got, f"env.dataset({arg!r}, phase='test', filename=...)"):
+                    return
         same_behaviour(ctx, sig, env, td, env, td2, names, seed, 8 * cfg["n"] + 60, "instances restored from npz")
         ctx.nontrivial_case(dict(c=case))
         ctx.sample(dict(case=case, keys=sorted(str(k) for k in td.keys())))
@@ -245,6 +260,41 @@ def schedfile_case(ctx, case):
             names = other_choosers(cfg, 1, seed + b)
             if not same_behaviour(ctx, sig, env, td_in[b : b + 1], env2, td2_in[b2 : b2 + 1], names, seed + b, 400, "instance restored from its text file"):
                 return
+        # repeated consumption of the same file set (one read per epoch; chunked reads): every pass must hand out every
+        # written instance exactly once again
+        def multiset(tds):
+            out = []
+            for t in tds:
+                for b_ in range(t.batch_size[0]):
+                    out.append(canon(t, b_))
+            return sorted(map(repr, out))
+
+        want = sorted(map(repr, orig.keys())) if len(orig) == B else None
+        if want is not None:
+            chunks = [c_ for c_ in (B, 1, 2, 3) if B % c_ == 0]
+            for rep, ch in enumerate(chunks + [B]):
+                try:
+                    got = [env2.generator(batch_size=[ch]) for _ in range(B // ch)]
+                except Exception as e:
+                    ctx.evaluation()
+                    ctx.violation(dict(sig, q="reread_raises", exc=type(e).__name__), f"reading the file set again (pass {rep + 2}, chunks of {ch}) raised {type(e).__name__}: {str(e)[:160]}", None)
+                    return
+                ctx.evaluation()
+                ctx.count("c19_sched_rereads")
+                if multiset(got) != want:
+                    ctx.violation(dict(sig, q="reread_content"), f"pass {rep + 2} over the same {B} files (chunks of {ch}) returned {sum(t.batch_size[0] for t in got)} instances that are not exactly the written ones", None)
+                    return
+            try:
+                ds = env2.dataset([B])
+                n_ds = len(ds)
+            except Exception as e:
+                n_ds = None
+            if n_ds is not None:
+                ctx.evaluation()
+                ctx.count("c19_sched_rereads")
+                if n_ds != B:
+                    ctx.violation(dict(sig, q="reread_content", via="dataset"), f"env.dataset([{B}]) on a file set of {B} returned {n_ds} instances", None)
+                    return
         ctx.nontrivial_case(dict(c=case))
     finally:
         shutil.rmtree(d, ignore_errors=True)
